@@ -93,6 +93,45 @@ def judge(job):
     return out, len(recs)
 
 
+def judge_text(job):
+    """Documents supplied as TEXT whose inner elements redeclare the namespace: every error path, resolved with the
+    namespace map the ERROR itself carries, must select exactly the error's element, in the allowed region."""
+    recs, ver = job
+    out = []
+    s = schema(ver)
+    for rec in recs:
+        xml = vdoc.render(rec["nodes"], inner_default=True)
+        try:
+            errors = list(s.iter_errors(xml))
+        except Exception as e:      # noqa: BLE001
+            out.append((rec, ver, "text", xml, f"raised {type(e).__name__}: {e}"[:200]))
+            continue
+        if (not errors) != rec["valid"]:
+            out.append((rec, ver, "text", xml, f"{len(errors)} errors, spec valid={rec['valid']}"))
+            continue
+        target = tuple(rec["target"])
+        for e in errors:
+            root = e.root
+            if e.elem is None or root is None:
+                out.append((rec, ver, "text", xml, f"error without an element: {str(e.reason)[:80]}"))
+                break
+            ipath = vdoc.index_paths(root)
+            where = ipath.get(id(e.elem))
+            try:
+                sel = vdoc.select(root, e.path, dict(e.namespaces or {}))
+            except ValueError as ex:
+                out.append((rec, ver, "text", xml, str(ex)))
+                break
+            if len(sel) != 1 or sel[0] is not e.elem:
+                out.append((rec, ver, "text", xml, f"path {e.path!r} resolved with the error's own namespace map "
+                            f"{dict(e.namespaces or {})} selects {len(sel)} node(s), the error is about node {where}"))
+                break
+            if where is not None and not (where == target[:len(where)] or target == where[:len(target)]):
+                out.append((rec, ver, "text", xml, f"error outside the ancestors/subtree of {target}: {where}"))
+                break
+    return out, len(recs)
+
+
 def judge_identity(job):
     """Identity-constraint errors: the path of every error selects exactly the element the error is about, and that
     element is the one Identity.tla names: the duplicate / incomplete row for key errors, the declaring element for
@@ -158,6 +197,14 @@ def run(ctx: Ctx):
             ctx.report({"ver": ver, "parser": parser, "fault": rec["fault"], "target": rec["target"],
                         "nodes": rec["nodes"], "xml": xml, "observed": what},
                        f"{ver}/{parser} {rec['fault']}: {what}  [{xml}]")
+    # text sources with inner namespace declarations
+    tjobs = [(recs[i:i + 100], ver) for ver in ("1.0", "1.1") for i in range(0, len(recs), 100)]
+    for bad, n in ctx.pmap(judge_text, tjobs):
+        total += n
+        for rec, ver, parser, xml, what in bad:
+            ctx.report({"ver": ver, "parser": parser, "fault": rec["fault"], "target": rec["target"],
+                        "nodes": rec["nodes"], "xml": xml, "observed": what},
+                       f"{ver}/{parser} {rec['fault']}: {what}  [{xml}]")
     # identity-constraint errors (documents of spec/Identity.tla)
     from checks import c08
     ijobs = []
@@ -182,7 +229,8 @@ def run(ctx: Ctx):
                 "every applicable single deviation (19 kinds: bad value, missing / extra / misplaced child, "
                 "missing / extra / bad attribute, stray text, at item, sub, title or root level); quick takes "
                 "every 3rd; both schema classes (and XSD 1.1 with an inheritable attribute on the root) x ElementTree and lxml parsers; prefixed and default-namespace "
-                "renderings alternate; plus the documents of spec/Identity.tla: every identity-constraint error must select exactly "
+                "renderings alternate; the same documents as text with the namespace redeclared as default namespace on every "
+                "child of the root (paths resolved with the namespace map the error carries); plus the documents of spec/Identity.tla: every identity-constraint error must select exactly "
                 "its element, which is the offending row / the declaring element / the root")
     ctx.assumptions += ["error paths are evaluated by an independent evaluator of the step[n] path grammar",
                         "fully loaded documents only (lazy resources are C06's business)"]
